@@ -911,7 +911,7 @@ impl<'a> Validator<'a> {
                     self.check_after_top_level_flow()?;
                     self.at_node_start = false;
                 }
-                Some(b'|' | b'>') if self.at_block_scalar_header() => {
+                Some(b'|' | b'>') if self.at_node_start && self.at_block_scalar_header() => {
                     self.scan_block_scalar_header()?;
                     self.skip_block_scalar_body(parent_indent);
                     return Ok(());
